@@ -1,0 +1,43 @@
+// SPDX-FileCopyrightText: 2026 The Pion community <https://pion.ly>
+// SPDX-License-Identifier: MIT
+
+//go:build verif
+
+package test
+
+import (
+	"sync/atomic"
+
+	"github.com/pion/interceptor"
+	"github.com/pion/rtcp"
+	"github.com/pion/rtp"
+)
+
+// VerifEvent is what MockStream hands to verifhook.Gate at each of its linearization points
+// (build tag verif only). Seq orders the events of one process.
+type VerifEvent struct {
+	Seq         uint64
+	Stream      *MockStream
+	Interceptor interceptor.Interceptor
+	Info        *interceptor.StreamInfo
+	SSRC        uint32
+	Header      *rtp.Header
+	Payload     []byte
+	RTCP        []rtcp.Packet
+	Raw         []byte
+	Err         error
+}
+
+var verifSeq atomic.Uint64 //nolint:gochecknoglobals
+
+func (s *MockStream) verifEv(h *rtp.Header, payload []byte, pkts []rtcp.Packet, raw []byte, err error) any {
+	ev := &VerifEvent{
+		Seq: verifSeq.Add(1), Stream: s, Interceptor: s.interceptor, Info: s.verifInfo,
+		Header: h, Payload: payload, RTCP: pkts, Raw: raw, Err: err,
+	}
+	if s.verifInfo != nil {
+		ev.SSRC = s.verifInfo.SSRC
+	}
+
+	return ev
+}
